@@ -12,20 +12,22 @@ from .. import gen
 from ..core import Case, entrywise_excess
 from ..oracles import shell
 
-KINDS = ['energy', 'energy', 'cone0', 'iso', 'kG0', 'structure']
+KINDS = ['energy', 'energy', 'cone0', 'iso', 'kG0', 'structure', 'edges']
 
 
 def plan(tier):
     n = 288 if tier == 'quick' else 3600
     return dict(n_cases=n, shards=16, min_nontrivial=n // 3,
-                min_tags={'kind:energy': n // 6, 'kind:cone0': n // 10, 'kind:iso': n // 10, 'kind:kG0': n // 10, 'kind:structure': n // 10,
+                min_tags={'kind:energy': n // 6, 'kind:cone0': n // 10, 'kind:iso': n // 10, 'kind:kG0': n // 10, 'kind:structure': n // 10, 'kind:edges': n // 10,
                           'geom:cone': n // 10, 'geom:cylinder': n // 10},
                 watchdog_s=2400 if tier == 'quick' else 14000,
                 rule='registered classical and first-order-shear shell models with their boundary-condition variants, r2/L over a decade, alpha in {0} u (0.5,60) deg, '
                      'laminates incl. unsymmetric, (m1,m2,n2) in 1..%d, elastic edge restraints 0..1e8, load triples of all signs; energy clause for classical models '
                      '(cylinders: exact; cones: convergence in the number of meridian sections s = 10,20,40,80 with rate s^-2 and Richardson limit); '
                      'non-trivial = cone or unsymmetric laminate or elastic restraint; distinct = hash of the description' % (4 if tier == 'quick' else 6),
-                assumptions=['energy clause compared on the amplitudes that are not prescribed (axial shortening free; twist and load asymmetry prescribed by default)',
+                assumptions=['edge-restraint clause: compared on the series amplitudes only (the restraints act relative to the loaded ring: the kernels '
+                             'leave the rows of the three base-function amplitudes empty, which the property does not speak about)',
+                             'energy clause compared on the amplitudes that are not prescribed (axial shortening free; twist and load asymmetry prescribed by default)',
                              'cones: the kernels freeze the radius per meridian section; the oracle integrates the continuous radius and the monitor checks s^-2 convergence to it'])
 
 
@@ -68,6 +70,7 @@ def strain_twin(d):
 def run_case(rng, tier, idx):
     kind = KINDS[idx % len(KINDS)]
     c = Case({'kind': kind})
+    c.round = idx // len(KINDS)
     c.tag('kind:' + kind)
     try:
         return globals()['case_' + kind](c, rng, tier)
@@ -354,6 +357,52 @@ def case_kG0(c, rng, tier):
     sc = sum(abs(l) * np.abs(u) for l, u in zip(loads, units)) + 1e-300
     c.judge('kG0 linear in axial force, pressure and torque', float((np.abs(G - lin) / (sc + 1e-6 * sc.max())).max()), 1e-9)
     c.nontrivial = True
+    return c
+
+
+def case_edges(c, rng, tier):
+    """elastic edge restraints: k0(with restraints) - k0(all restraint constants zero), both from the real
+    _calc_linear_matrices, equals the Hessian of sum_edges sum_q 1/2 k_q int q^2 r dtheta of the package's own
+    displacement field with the constants of this object - every constant different, so a constant reaching the
+    wrong slot, edge or component cannot hide"""
+    with_edges = [m for m in gen.CLPT_MODELS + gen.ISO_MODELS + gen.FSDT_MODELS if springs_of(m)]
+    d = gen.shell_desc(rng, models=[with_edges[c.round % len(with_edges)]], mmax=3 if tier == 'quick' else 5, nmax=3)
+    springs = springs_of(d['model'])
+    if not springs:
+        return c.reject('model without elastic edge restraints')
+    style = str(rng.choice(['distinct', 'one', 'sparse']))
+    names = [nm + e for nm in springs for e in ('Bot', 'Top')]
+    for nm in names:
+        d[nm] = float(10 ** rng.uniform(4, 9))
+    if style == 'one':
+        keep = str(rng.choice(names))
+        for nm in names:
+            if nm != keep:
+                d[nm] = 0.0
+    elif style == 'sparse':
+        for nm in names:
+            if rng.random() < 0.4:
+                d[nm] = 0.0
+        if not any(d[nm] for nm in names):
+            d[names[0]] = 1e6
+    c.desc['shell'] = d
+    c.tag('model:' + d['model'], 'geom:cone' if d['alphadeg'] else 'geom:cylinder', 'springs:' + style)
+    c.nontrivial = True
+    cc = gen.build_shell(d)
+    K1 = k0_of(cc)
+    d0 = dict(d)
+    for nm in names:
+        d0[nm] = 0.0
+    K0 = k0_of(gen.build_shell(d0))
+    # the three base-function amplitudes (shortening, twist, load asymmetry) move the loaded ring itself; the
+    # restraints act on the series part relative to that ring, and the kernels leave those rows empty by design
+    free = np.setdiff1d(np.arange(K1.shape[0]), np.union1d(cc.excluded_dofs, [0, 1, 2]))
+    ix = np.ix_(free, free)
+    Ko, S = shell.edge_energy(strain_twin(d), d, springs)
+    S = S + 1e-4 * np.abs(K0)
+    ratio, ij = entrywise_excess((K1 - K0)[ix], Ko[ix], S[ix], 1e-9)
+    c.judge('edge-restraint part of k0 equals the Hessian of the edge spring energy with this object\'s constants', ratio * 1e-9, 1e-9,
+            data={'entry': [int(free[ij[0]]), int(free[ij[1]])], 'code': float((K1 - K0)[ix][ij]), 'oracle': float(Ko[ix][ij])})
     return c
 
 
